@@ -99,6 +99,16 @@ pub fn wrapped_drop_close() -> Scenario {
     s
 }
 
+/// the acceptor closes first (by dropping both halves): the connector is the passive closer and ends in
+/// last-ack with nothing but the final-chance timer to bound its life once its send queue was emptied
+pub fn acceptor_closes_first() -> Scenario {
+    base(
+        "acceptor-closes-first",
+        app(vec![WOp::Write(30), WOp::WaitRead(20)], vec![ROp::ReadToEof(64)]),
+        app(vec![WOp::WaitRead(30), WOp::Write(20), WOp::Drop], vec![ROp::ReadN(30, 64), ROp::Drop]),
+    )
+}
+
 /// request / response
 pub fn ping_pong() -> Scenario {
     base(
@@ -160,6 +170,17 @@ pub fn mtu_drop_close(link_mtu: usize, blackhole_above: Option<usize>, bytes: us
 /// the scenarios on which faults are enumerated
 pub fn core() -> Vec<Scenario> {
     vec![a2b_bulk(), both_ways(), slow_reader(), small_writes(), fin_behind_data(), ping_pong(), tiny_rx(), drop_close(), idle_shutdown()]
+}
+
+/// Both directions over a probing path with a receive buffer between the initial and the largest
+/// segment size at A: A's own segment size grows while B still has data for A.
+pub fn small_rx_probing(rx_buf: usize) -> Scenario {
+    let mut s = mtu_transfer(1500, None, None, 20_000, false);
+    s.name = format!("small-rx-{rx_buf}-probing");
+    s.a.rx_buf = rx_buf;
+    s.app_a = app(vec![WOp::Write(20_000), WOp::WaitRead(3_000), WOp::Shutdown], vec![ROp::ReadToEof(4096)]);
+    s.app_b = app(vec![WOp::PauseMs(400), WOp::Write(3_000), WOp::WaitRead(20_000), WOp::Shutdown], vec![ROp::ReadToEof(4096)]);
+    s
 }
 
 /// MTU-probing transfer: link MTU > 576 so the MSS starts at 528 and probes upwards.
